@@ -433,7 +433,7 @@ func famConc(tr *Trace, scratch string, seed int64, tier string) M {
 	rng := rand.New(rand.NewSource(seed + 7))
 	nshapes, iters := 13, 12
 	if tier == "thorough" {
-		nshapes, iters = 30, 120
+		nshapes, iters = 20, 40
 	}
 	shapes := isoShapes(scratch, rng, nshapes)
 	sets := [][]string{{"deb", "rpm"}, {"apk", "archlinux"}, {"deb", "ipk"}, {"rpm", "apk", "ipk"}, allFormats, {"deb", "deb"}, {"rpm", "rpm", "archlinux"}}
